@@ -31,11 +31,11 @@ Theorem C18_sc_of_full : forall f e b fl,
 Proof. exact sc_of_full. Qed.
 Print Assumptions C18_sc_of_full.
 
-(* the converse is false of the current code: full evaluation can raise where
-   short-circuit evaluation has already answered *)
+(* the converse is false: full evaluation evaluates operands that short-circuit
+   evaluation skips, and an ill-formed operand (unknown enum) raises *)
 Theorem C18_full_of_sc_refuted :
-  let f := Leaf FOO [BAR; [42]%N] (Some (OIn, VLit (int_ 256))) in
-  eval true f w_entry_two = Ok true [(BAR, 0%N, BAR)] /\ eval false f w_entry_two = Err XValue.
+  let f := Or (Leaf FOO [] None) w_filter_bogus in
+  eval true f w_entry_bytes = Ok true [] /\ eval false f w_entry_bytes = Err XAttr.
 Proof. exact full_of_sc_refuted. Qed.
 Print Assumptions C18_full_of_sc_refuted.
 
@@ -63,55 +63,45 @@ Theorem C18_leaf_exists_subfield : forall sc e s0 bp vp kp ov b fl,
 Proof. exact leaf_exists4. Qed.
 Print Assumptions C18_leaf_exists_subfield.
 
-(* Never an error.  FULL STATEMENT (false of the current code, see _refuted):
-     forall f sc e, exists b fl, eval sc f e = Ok b fl.
-   Proved part: for every filter accepted by [safe] - which excludes exactly
-   ill-formed expected values (multi-level Meta reference, unresolvable enum
-   reference), `~=` against an expected value that is or may be an int outside
-   range(256), and `&` on a Meta selector - evaluation never raises, on any entry,
-   whatever the field types are. *)
-Theorem C18_never_error_partial : forall f, safe f = true ->
+(* Never an error: for every well-formed filter ([safe]: every expected value is a
+   literal, a single-level Meta reference or an enum reference that resolves),
+   evaluation never raises, on any entry, whatever the types of the fields are - a
+   comparison that cannot be applied is simply false. *)
+Theorem C18_never_error : forall f, safe f = true ->
   forall sc e, exists b fl, eval sc f e = Ok b fl.
 Proof. exact never_error. Qed.
-Print Assumptions C18_never_error_partial.
+Print Assumptions C18_never_error.
 
-(* `Foo.Bar.Baz ~= 256` on a bytes field raises ValueError and `Meta.AgentLocal & 4`
-   raises TypeError (MatchResult.__bool__ returns an int), with either short_circuit *)
-Theorem C18_never_error_refuted :
-  safe_value (VLit (int_ 256)) = true /\
-  eval true w_filter_in w_entry_bytes = Err XValue /\
-  eval false w_filter_in w_entry_bytes = Err XValue /\
-  eval true w_filter_band w_entry_meta = Err XType /\
-  eval false w_filter_band w_entry_meta = Err XType.
-Proof. exact never_error_refuted. Qed.
-Print Assumptions C18_never_error_refuted.
+(* the operator table itself is total *)
+Theorem C18_apply_op_total : forall o a b, exists r, apply_op o a b = OB r.
+Proof. exact apply_op_total. Qed.
+Print Assumptions C18_apply_op_total.
 
-(* `!=` is not the complement of `==` for TupleCoord and JankStringyBytes fields *)
-Theorem C18_ne_not_complement :
-  let v := PCoord [f_ 0; f_ 1; f_ 0] [] in
-  let t := PTup [n_ 0; n_ 1; n_ 0] in
-  let j := PBytes (Some [97; 98; 99]%N) [97; 98; 99]%N in
-  apply_op OEq v t = OB true /\ apply_op ONe v t = OB true /\
-  apply_op OEq j (int_ 3) = OB false /\ apply_op ONe j (int_ 3) = OB false.
-Proof. exact ne_not_complement. Qed.
-Print Assumptions C18_ne_not_complement.
+(* `!=` is the complement of `==` for every pair of values *)
+Theorem C18_ne_complement : forall a b,
+  apply_op OEq a b = OB (py_eq a b) /\ apply_op ONe a b = OB (negb (py_eq a b)).
+Proof. exact ne_complement. Qed.
+Print Assumptions C18_ne_complement.
+
+(* outside the quantifier: an ill-formed expected value raises when it is resolved *)
+Theorem C18_ill_formed_raises :
+  safe w_filter_bogus = false /\
+  eval true w_filter_bogus w_entry_bytes = Err XAttr /\ eval false w_filter_bogus w_entry_bytes = Err XAttr.
+Proof. exact ill_formed_raises. Qed.
+Print Assumptions C18_ill_formed_raises.
 
 (* ---- the view equals the filtered log -------------------------------- *)
 
-(* For EVERY operation sequence {log, set filter (compilable or not), pause, resume,
-   clear} and every window size, if the logged entries are distinct objects and the
-   filters installed by set_filter evaluate without raising on the logged entries:
-   the view is exactly the retained entries matching the current filter, in arrival
-   order, without duplicates.  "Retained" = the window (at most maxlen newest
-   entries logged while not paused since the last clear) plus the aged entries:
-   those that fell out of the window while visible and have matched every filter
-   installed since (LogView.gstep).
-   FULL STATEMENT (without the no-raise hypothesis) is false of the current code,
-   see C18_view_invariant_refuted. *)
-Theorem C18_view_invariant_partial :
+(* For EVERY operation sequence {log, set filter (compilable or not, raising or not),
+   pause, resume, clear} of distinct entries and every window size: the view is
+   exactly the retained entries matching the current filter, in arrival order, without
+   duplicates.  "Retained" = the window (at most maxlen newest entries logged while
+   not paused since the last clear) plus the aged entries: those that fell out of the
+   window while visible and have matched every filter installed since (LogView.gstep).
+   A set_filter whose filter raises on a retained entry changes nothing. *)
+Theorem C18_view_invariant :
   forall (E F : Type) (eid : E -> N) (mt : F -> E -> option bool) (maxlen : nat) f0 ops,
   NoDup (map eid (logged E F ops)) ->
-  (forall f e, In f (filters E F ops) -> In e (logged E F ops) -> mt f e <> None) ->
   let s := run E F eid mt maxlen f0 ops in
   let aged := snd (grun E F eid mt maxlen f0 ops) in
   view s = filter (mb E F mt (flt s)) (aged ++ raw s) /\
@@ -121,43 +111,25 @@ Theorem C18_view_invariant_partial :
   subseq (aged ++ raw s) (logged E F ops) /\
   length (raw s) <= maxlen.
 Proof. exact view_invariant. Qed.
-Print Assumptions C18_view_invariant_partial.
+Print Assumptions C18_view_invariant.
 
 (* aged entries are no longer in the window *)
 Theorem C18_aged_not_in_window :
   forall (E F : Type) (eid : E -> N) (mt : F -> E -> option bool) (maxlen : nat) f0 ops,
   NoDup (map eid (logged E F ops)) ->
-  (forall f e, In f (filters E F ops) -> In e (logged E F ops) -> mt f e <> None) ->
   forall x, In x (snd (grun E F eid mt maxlen f0 ops)) ->
   in_raw E eid x (raw (run E F eid mt maxlen f0 ops)) = false.
 Proof. exact aged_not_in_window. Qed.
 Print Assumptions C18_aged_not_in_window.
 
-(* the instance that is extracted: entries of Filter.v, filters evaluated by [eval];
-   by C18_never_error_partial the no-raise hypothesis holds for all [safe] filters *)
-Theorem C18_view_invariant_safe : forall maxlen f0 (ops : list (lop centry fexp)),
-  NoDup (map (@fst N entry) (logged centry fexp ops)) ->
-  forallb safe (filters centry fexp ops) = true ->
-  let s := crun maxlen f0 ops in
-  let aged := snd (grun centry fexp (@fst N entry) cmt maxlen f0 ops) in
-  view s = filter (mb centry fexp cmt (flt s)) (aged ++ raw s) /\
-  NoDup (map (@fst N entry) (view s)) /\
-  subseq (view s) (logged centry fexp ops).
-Proof. exact view_invariant_safe. Qed.
-Print Assumptions C18_view_invariant_safe.
-
-(* maxlen 1: log e1, log e2 (e1 ages out while visible), set_filter("Foo.Bar.Baz ~= 256")
-   raises on e1: the filter has been replaced but the view [e1; e2] is not rebuilt,
-   while no retained entry matches the new filter *)
-Theorem C18_view_invariant_refuted :
+(* maxlen 1: log e1, log e2 (e1 ages out while visible), set_filter with a filter that
+   raises on e1: filter, view and window are unchanged *)
+Theorem C18_set_filter_raise_keeps_state :
   let f0 := Leaf [42%N] [] None in
   let s := crun 1 f0 w_ops in
-  let aged := snd (grun centry fexp (@fst N entry) cmt 1 f0 w_ops) in
-  NoDup (map (@fst N entry) (logged centry fexp w_ops)) /\
-  map fst (view s) = [1%N; 2%N] /\
-  map fst (filter (mb centry fexp cmt (flt s)) (aged ++ raw s)) = [].
-Proof. exact view_invariant_refuted. Qed.
-Print Assumptions C18_view_invariant_refuted.
+  flt s = f0 /\ map fst (view s) = [1%N; 2%N] /\ map fst (raw s) = [2%N].
+Proof. exact set_filter_raise_keeps_state. Qed.
+Print Assumptions C18_set_filter_raise_keeps_state.
 
 (* ---- non-vacuity ------------------------------------------------------ *)
 
@@ -168,7 +140,7 @@ Example C18_ex_safe_eval :
 Proof. exact ex_safe_eval. Qed.
 
 (* a comparison that cannot be applied to the field's type is simply false:
-   bytes < int, bytes.startswith(str), int & bytes *)
+   bytes < int, bytes.startswith(str), int & bytes, 256 in bytes *)
 Example C18_ex_inapplicable :
   apply_op OLt (PBytes None [97]%N) (int_ 5) = OB false /\
   apply_op OStarts (PBytes None [97]%N) (PStr [97]%N) = OB false /\
@@ -183,10 +155,17 @@ Example C18_ex_fields :
   eval false f w_entry_two = Ok true [(BAR, 0%N, BAR); (BAR, 0%N, BAZ)].
 Proof. vm_compute. split; reflexivity. Qed.
 
-(* an operation sequence with eviction, aging, re-filtering, pause and resume that
-   meets the hypotheses of the view invariant; window [3;5], view [1;2;3;5] *)
+(* an operation sequence with eviction, aging, re-filtering, pause and resume;
+   window [3;5], view [1;2;3;5] *)
 Example C18_ex_ops :
   NoDup (map (@fst N entry) (logged centry fexp ex_ops)) /\
-  (forall f e, In f (filters centry fexp ex_ops) -> In e (logged centry fexp ex_ops) -> cmt f e <> None) /\
   cobs (crun 2 (Leaf [42%N] [] None) ex_ops) = ([3%N; 5%N], [1%N; 2%N; 3%N; 5%N]).
 Proof. exact ex_ops_ok. Qed.
+
+(* the comparisons that used to raise are plain answers *)
+Example C18_ex_former_errors :
+  eval true w_filter_in w_entry_bytes = Ok false [] /\
+  eval false w_filter_in w_entry_bytes = Ok false [] /\
+  eval true w_filter_band w_entry_meta = Ok true [] /\
+  eval false w_filter_band w_entry_meta = Ok true [].
+Proof. exact former_errors. Qed.
